@@ -5,7 +5,11 @@ import re
 
 from . import templates as T
 
-STYLES = ["sa_select", "sa_legacy", "sa_core", "dj_qs", "dj_manager"]
+STYLES = ["sa_select", "sa_legacy", "sa_core", "dj_qs", "dj_manager", "dj_custom_manager",
+          "dj_related_manager"]
+# related managers the host may start from: root model -> (owner model, accessor, fk column)
+RELATED = {"Post": ("Author", "posts", "author_id"),
+           "Comment": ("Post", "comments", "post_id")}
 HOST_OPS = {"eq": "__eq__", "ne": "__ne__", "lt": "__lt__", "le": "__le__", "gt": "__gt__",
             "ge": "__ge__"}
 DJ_LOOKUP = {"eq": "exact", "lt": "lt", "le": "lte", "gt": "gt", "ge": "gte"}
@@ -41,6 +45,27 @@ class Libs:
         self.sa_apply = sa_apply
         self.sa_core_apply = apply_odata_core
         self._dj_tables = False
+        self.warm()
+
+    def warm(self):
+        """First-use initialisation of SQLAlchemy and Django (mapper configuration,
+        compiler caches, lazy imports) done once, with host objects only - nothing here
+        touches odata_query - so that forked children start warm."""
+        from sqlalchemy.orm import configure_mappers
+        configure_mappers()
+        for m in ("Author", "Post", "Comment"):
+            str(self.select(self.sm.MODELS[m]).where(self.sm.MODELS[m].id > 0)
+                .order_by(self.sm.MODELS[m].id).compile(dialect=self.sqlite_dialect))
+            str(self.select(self.sm.TABLES[m]).compile(dialect=self.sqlite_dialect))
+            self.dm.MODELS[m].objects.filter(id__gt=0).order_by("id").query.sql_with_params()
+        str(self.select(self.sm.Comment).join(self.sm.Comment.writer)
+            .compile(dialect=self.sqlite_dialect))
+        self.dm.Comment.objects.select_related("post").filter(
+            writer__name="x").query.sql_with_params()
+        sess = self.Session()
+        str(sess.query(self.sm.Post).filter(self.sm.Post.id > 0).statement
+            .compile(dialect=self.sqlite_dialect))
+        sess.close()
 
     # ---------------------------------------------------------------- databases
     def new_sa_engine(self, cache_size):
@@ -100,7 +125,7 @@ class Builder:
         self.L = libs
         self.session = session
 
-    def new(self, style, root):
+    def new(self, style, root, owner_id=None):
         L = self.L
         if style == "sa_select":
             return L.select(L.sm.MODELS[root])
@@ -113,6 +138,11 @@ class Builder:
             return L.dm.MODELS[root].objects.all()
         if style == "dj_manager":
             return L.dm.MODELS[root].objects
+        if style == "dj_custom_manager":
+            return L.dm.Post.high          # root is Post
+        if style == "dj_related_manager":
+            owner, accessor, _ = RELATED[root]
+            return getattr(L.dm.MODELS[owner](id=owner_id), accessor)
         raise ValueError(style)
 
     def where(self, style, root, obj, cond):
@@ -183,7 +213,7 @@ class Builder:
         """chain = [new-op, op, op, ...] -> live object (used by the pristine oracle)."""
         first = chain[0]
         style, root = first["style"], first["root"]
-        obj = self.new(style, root)
+        obj = self.new(style, root, first.get("owner_id"))
         for op in chain[1:]:
             obj = self.step(style, root, obj, op)
         return style, root, obj
